@@ -5,6 +5,8 @@ From Coq Require Import ZArith Reals List Lra.
 Import ListNotations.
 From FV.C11 Require Import Model Entry Proofs.
 Open Scope R_scope.
+(* no sentence of this file may hold the shared Coq build lock for long *)
+Set Default Timeout 240.
 
 Lemma tri_cross_affine M t p0 a b :
   tri_cross ROps (aff ROps M t p0) (aff ROps M t a) (aff ROps M t b)
